@@ -4,14 +4,31 @@ From BX Require Import Base.Prelude Model.JsonAcct Model.Merkle Model.StateLedge
   Proofs.LedgerLemmas Proofs.RefineBase.
 Local Open Scope N_scope.
 
+Section Block.
+Context {e : env}.
+
 (** * object-level facts *)
-Lemma obj_code_none m a o : ObjOk m a o -> obj_code m a o = (o, None).
+(** [Code()] returns the dirty code and leaves the object as it is (a lazy load finds nothing new) *)
+Lemma obj_code_spec m a o : ObjOk m a o ->
+  obj_code m a o = (o, o_dcode o) /\ (o_dcode o = None -> cached_code m a = None).
 Proof.
-  intros [_ _ _ _ [Hoc [Hdc [Ho Hd]]]]. unfold obj_code. rewrite Hdc, Hoc.
-  assert (Hch : obj_ch o = None).
-  { unfold obj_ch, cur_acct. destruct (o_dirty o) as [d|] eqn:E; [apply Hd; reflexivity|].
-    destruct (o_orig o) as [x|] eqn:E2; [apply Ho; reflexivity | reflexivity]. }
-  rewrite Hch. reflexivity.
+  intros [_ _ _ _ Hoc Hcd].
+  assert (Hn : o_dcode o = None -> o_ocode o = None /\ cached_code m a = None).
+  { intro Hd. destruct Hcd as [[Heq _] | [d [_ [_ Hc]]]].
+    - rewrite Hd in Heq. split; [congruence | rewrite <- Hoc; congruence].
+    - split; [rewrite Hoc; apply Hc, Hd | apply Hc, Hd]. }
+  split; [| intro Hd; apply Hn, Hd].
+  unfold obj_code. destruct (o_dcode o) as [c|] eqn:Ed; [reflexivity|].
+  destruct (Hn eq_refl) as [Ho Hc]. rewrite Ho.
+  destruct (negb (ch_nonempty (obj_ch o))); [reflexivity|].
+  cbv zeta. rewrite Hc. clear Hoc Hcd Hn Hc. destruct o; simpl in *; subst; reflexivity.
+Qed.
+
+Lemma obj_get_state_codes m a o k :
+  o_dcode (fst (obj_get_state m a o k)) = o_dcode o /\ o_ocode (fst (obj_get_state m a o k)) = o_ocode o.
+Proof.
+  unfold obj_get_state. destruct (kget k (o_dst o)); [split; reflexivity|].
+  destruct (kget k (o_ost o)); split; reflexivity.
 Qed.
 
 (** [obj_get_state]: the value read is the current view; the object afterwards has the origin *)
@@ -35,7 +52,7 @@ Proof.
         rewrite kget_kput. destruct (bytes_eqb k' k) eqn:E; [| reflexivity].
         apply bytes_eqb_spec in E. subst k'. rewrite Eo. reflexivity. }
       split.
-      { destruct Ok as [H1 H2 H3 H4 H5]. constructor; simpl; try assumption.
+      { destruct Ok as [H1 H2 H3 H4 H5 H6]. constructor; simpl; try assumption.
         - intros k' v'. rewrite kget_kput. destruct (bytes_eqb k' k) eqn:E.
           + apply bytes_eqb_spec in E. subst k'. intro H. inversion H. reflexivity.
           + apply H2.
@@ -55,6 +72,8 @@ Lemma cur_oacct_at m a o : aget a (s_objs m) = Some o -> cur_oacct m a = cur_acc
 Proof. intro H. unfold cur_oacct. rewrite H. reflexivity. Qed.
 Lemma cur_st_at m a o k : aget a (s_objs m) = Some o -> cur_st m a k = obj_st m a o k.
 Proof. intro H. unfold cur_st. rewrite H. reflexivity. Qed.
+Lemma cur_code_at m a o : aget a (s_objs m) = Some o -> cur_code m a = nb (o_dcode o).
+Proof. intro H. unfold cur_code. rewrite H. reflexivity. Qed.
 
 (** a step that leaves every view and the invariant alone *)
 Record same_views (m m' : st) : Prop := {
@@ -63,6 +82,7 @@ Record same_views (m m' : st) : Prop := {
   sv_cache : s_cache m' = s_cache m;
   sv_st : forall a k, cur_st m' a k = cur_st m a k;
   sv_ac : forall a, cur_oacct m' a = cur_oacct m a;
+  sv_code : forall a, cur_code m' a = cur_code m a;
   sv_rest : s_pend m' = s_pend m /\ s_prev m' = s_prev m /\ s_min m' = s_min m /\ s_max m' = s_max m /\
             s_next m' = s_next m /\ s_revs m' = s_revs m /\ s_gen m' = s_gen m
 }.
@@ -88,29 +108,32 @@ Qed.
 (** rewriting an object in place with an equivalent one *)
 Lemma put_same_obj_views m a o o' :
   Inv m -> aget a (s_objs m) = Some o -> ObjOk m a o' ->
-  (forall k, obj_st m a o' k = obj_st m a o k) -> cur_acct o' = cur_acct o ->
+  (forall k, obj_st m a o' k = obj_st m a o k) -> cur_acct o' = cur_acct o -> o_dcode o' = o_dcode o ->
   same_views m (put_obj m a o').
 Proof.
-  intros I Ho Ok Hst Hac. constructor; try reflexivity.
+  intros I Ho Ok Hst Hac Hdc. constructor; try reflexivity.
   - apply Inv_put_obj; assumption.
   - intros a' k. rewrite cur_st_put_obj. destruct (a' =? a) eqn:E; [| reflexivity].
     apply N.eqb_eq in E. subst. rewrite (cur_st_at m a o k Ho). apply Hst.
   - intros a'. rewrite cur_oacct_put_obj. destruct (a' =? a) eqn:E; [| reflexivity].
     apply N.eqb_eq in E. subst. rewrite (cur_oacct_at m a o Ho). exact Hac.
+  - intros a'. rewrite cur_code_put_obj. destruct (a' =? a) eqn:E; [| reflexivity].
+    apply N.eqb_eq in E. subst. rewrite (cur_code_at m a o Ho), Hdc. reflexivity.
   - repeat split.
 Qed.
 
 Lemma do_getcode_spec m a : Inv m ->
   let '(m2, x) := do_getcode m a in
-  exists m1 o, got_ok m a m1 o /\ same_views m1 m2 /\ s_chg m2 = s_chg m1 /\ x = SVal None /\
-               aget a (s_objs m2) <> None.
+  exists m1 o c, got_ok m a m1 o /\ same_views m1 m2 /\ s_chg m2 = s_chg m1 /\ x = SVal c /\
+               nb c = cur_code m a /\ aget a (s_objs m2) <> None.
 Proof.
   intro I. unfold do_getcode. pose proof (get_obj_ok m a I) as G.
   destruct (get_obj m a) as [m1 o]. simpl in G.
   pose proof (inv_objs m1 (go_inv _ _ _ _ G) a o (go_obj _ _ _ _ G)) as Ok.
-  rewrite (obj_code_none m1 a o Ok).
-  exists m1, o. split; [exact G|]. split; [| split; [reflexivity | split; [reflexivity|]]].
+  rewrite (proj1 (obj_code_spec m1 a o Ok)).
+  exists m1, o, (o_dcode o). split; [exact G|]. split; [| split; [reflexivity | split; [reflexivity| split]]].
   - apply (put_same_obj_views m1 a o o); try assumption; try reflexivity; apply G.
+  - rewrite <- (go_cur_code _ _ _ _ G a). symmetry. apply cur_code_at. apply G.
   - rewrite put_obj_objs, N.eqb_refl. discriminate.
 Qed.
 
@@ -122,12 +145,13 @@ Proof.
   intro I. unfold do_getst. pose proof (get_obj_ok m a I) as G.
   destruct (get_obj m a) as [m1 o]. simpl in G.
   pose proof (inv_objs m1 (go_inv _ _ _ _ G) a o (go_obj _ _ _ _ G)) as Ok.
-  pose proof (obj_get_state_spec m1 a o k Ok) as S.
-  destruct (obj_get_state m1 a o k) as [o1 v].
+  pose proof (obj_get_state_spec m1 a o k Ok) as S. pose proof (obj_get_state_codes m1 a o k) as Hcodes.
+  destruct (obj_get_state m1 a o k) as [o1 v]. cbn [fst] in Hcodes.
   destruct S as [Ok1 [Hv [_ [Hd [Hor [Hdi Hst]]]]]].
   exists m1, o, v. split; [exact G|]. split; [| split; [reflexivity | split; [reflexivity | split]]].
   - apply (put_same_obj_views m1 a o o1); try assumption; try apply G.
-    unfold cur_acct. rewrite Hdi, Hor. reflexivity.
+    + unfold cur_acct. rewrite Hdi, Hor. reflexivity.
+    + exact (proj1 Hcodes).
   - rewrite Hv, <- (go_cur_st _ _ _ _ G a k). symmetry. apply cur_st_at. apply G.
   - rewrite put_obj_objs, N.eqb_refl. discriminate.
 Qed.
@@ -139,6 +163,7 @@ Record wrote_st (m m' : st) (a : N) (k : bytes) (b : bytes) : Prop := {
   ws_cache : s_cache m' = s_cache m;
   ws_st : forall a' k', cur_st m' a' k' = if (a' =? a) && bytes_eqb k' k then b else cur_st m a' k';
   ws_ac : forall a', cur_oacct m' a' = cur_oacct m a';
+  ws_code : forall a', cur_code m' a' = cur_code m a';
   ws_rest : s_pend m' = s_pend m /\ s_prev m' = s_prev m /\ s_min m' = s_min m /\ s_max m' = s_max m /\
             s_next m' = s_next m /\ s_revs m' = s_revs m /\ s_gen m' = s_gen m
 }.
@@ -147,7 +172,7 @@ Lemma write_dst_obj m a o1 k v :
   Inv m -> aget a (s_objs m) = Some o1 -> kget k (o_ost o1) <> None ->
   wrote_st m (put_obj m a (set_dst o1 (kput k v (o_dst o1)))) a k (nb v).
 Proof.
-  intros I Ho Hk. pose proof (inv_objs m I a o1 Ho) as [H1 H2 H3 H4 H5].
+  intros I Ho Hk. pose proof (inv_objs m I a o1 Ho) as [H1 H2 H3 H4 H5 H6].
   constructor; try reflexivity.
   - apply Inv_put_obj; [exact I|]. constructor; simpl; try assumption.
     + exact (aset_NoDup bytes_eqb bytes_eqb_spec k v _ H1).
@@ -160,12 +185,14 @@ Proof.
     rewrite (cur_st_at m a o1 k' Ho). reflexivity.
   - intros a'. rewrite cur_oacct_put_obj. destruct (a' =? a) eqn:E; [| reflexivity].
     apply N.eqb_eq in E. subst. rewrite (cur_oacct_at m a o1 Ho). reflexivity.
+  - intros a'. rewrite cur_code_put_obj. destruct (a' =? a) eqn:E; [| reflexivity].
+    apply N.eqb_eq in E. subst. rewrite (cur_code_at m a o1 Ho). reflexivity.
   - repeat split.
 Qed.
 
 Lemma wrote_st_frame_chg m m' a k b c : wrote_st m m' a k b -> wrote_st m (set_chg m' c) a k b.
 Proof.
-  intros [W1 W2 W3 W4 W5 W6]. constructor; try assumption.
+  intros [W1 W2 W3 W4 W5 Wc W6]. constructor; try assumption.
   revert W1. apply Inv_frame; reflexivity.
 Qed.
 
@@ -177,12 +204,13 @@ Lemma prepared_obj m a k : Inv m ->
 Proof.
   intro I. pose proof (get_obj_ok m a I) as G. destruct (get_obj m a) as [m1 o]. simpl in G.
   pose proof (inv_objs m1 (go_inv _ _ _ _ G) a o (go_obj _ _ _ _ G)) as Ok.
-  pose proof (obj_get_state_spec m1 a o k Ok) as S.
-  destruct (obj_get_state m1 a o k) as [o1 prev].
+  pose proof (obj_get_state_spec m1 a o k Ok) as S. pose proof (obj_get_state_codes m1 a o k) as Hcodes.
+  destruct (obj_get_state m1 a o k) as [o1 prev]. cbn [fst] in Hcodes.
   destruct S as [Ok1 [Hv [Hk [Hd [Hor [Hdi Hst]]]]]].
   split; [exact G|]. split; [| split; [exact Hk|]].
   - apply (put_same_obj_views m1 a o o1); try assumption; try apply G.
-    unfold cur_acct. rewrite Hdi, Hor. reflexivity.
+    + unfold cur_acct. rewrite Hdi, Hor. reflexivity.
+    + exact (proj1 Hcodes).
   - rewrite Hv, <- (go_cur_st _ _ _ _ G a k). symmetry. apply cur_st_at. apply G.
 Qed.
 
@@ -195,26 +223,28 @@ Qed.
 
 Lemma same_views_trans m1 m2 m3 : same_views m1 m2 -> same_views m2 m3 -> same_views m1 m3.
 Proof.
-  intros [A1 A2 A3 A4 A5 A6] [B1 B2 B3 B4 B5 B6]. apply Build_same_views.
+  intros [A1 A2 A3 A4 A5 Ac A6] [B1 B2 B3 B4 B5 Bc B6]. apply Build_same_views.
   - exact B1.
   - congruence.
   - congruence.
   - intros a k. rewrite B4. apply A4.
   - intros a. rewrite B5. apply A5.
+  - intros a. rewrite Bc. apply Ac.
   - decompose [and] A6. decompose [and] B6. repeat split; congruence.
 Qed.
 
 Lemma got_ok_same_views m a m1 o : got_ok m a m1 o -> same_views m m1.
-Proof. intros [G1 G2 G3 G4 G5 G6 G7 G8]. constructor; assumption. Qed.
+Proof. intros [G1 G2 G3 G4 G5 G6 Gc G7 G8]. constructor; assumption. Qed.
 
 Lemma wrote_st_after_views m0 m m' a k b : same_views m0 m -> wrote_st m m' a k b -> wrote_st m0 m' a k b.
 Proof.
-  intros [A1 A2 A3 A4 A5 A6] [W1 W2 W3 W4 W5 W6]. apply Build_wrote_st.
+  intros [A1 A2 A3 A4 A5 Ac A6] [W1 W2 W3 W4 W5 Wc W6]. apply Build_wrote_st.
   - exact W1.
   - congruence.
   - congruence.
   - intros a' k'. rewrite W4, A4. reflexivity.
   - intros a'. rewrite W5. apply A5.
+  - intros a'. rewrite Wc. apply Ac.
   - decompose [and] A6. decompose [and] W6. repeat split; congruence.
 Qed.
 
@@ -263,53 +293,76 @@ Proof.
 Qed.
 
 (** account-field writers *)
-Record wrote_ac (m m' : st) (a : N) (x : acct) : Prop := {
+Record wrote_ac (m m' : st) (a : N) (x : acct) (b : bytes) : Prop := {
   wa_inv : Inv m';
   wa_db : s_db m' = s_db m;
   wa_cache : s_cache m' = s_cache m;
   wa_st : forall a' k', cur_st m' a' k' = cur_st m a' k';
   wa_ac : forall a', cur_oacct m' a' = if a' =? a then Some x else cur_oacct m a';
+  wa_code : forall a', cur_code m' a' = if a' =? a then b else cur_code m a';
   wa_rest : s_pend m' = s_pend m /\ s_prev m' = s_prev m /\ s_min m' = s_min m /\ s_max m' = s_max m /\
             s_next m' = s_next m /\ s_revs m' = s_revs m /\ s_gen m' = s_gen m
 }.
 
-Lemma cur_acct_ch_none m a o x : ObjOk m a o -> cur_acct o = Some x -> ac_ch x = None.
-Proof.
-  intros [_ _ _ _ [_ [_ [Ho Hd]]]]. unfold cur_acct. destruct (o_dirty o) as [d|] eqn:E.
-  - intro H. inversion H; subst. apply Hd. reflexivity.
-  - intro H. apply Ho. exact H.
-Qed.
-
+(** writing an account record that keeps the current code hash *)
 Lemma write_dirty_obj m a o x :
-  Inv m -> aget a (s_objs m) = Some o -> ac_ch x = None ->
-  wrote_ac m (put_obj m a (set_dirty o (Some x))) a x.
+  Inv m -> aget a (s_objs m) = Some o -> ac_ch x = obj_ch o ->
+  wrote_ac m (put_obj m a (set_dirty o (Some x))) a x (cur_code m a).
 Proof.
-  intros I Ho Hx. pose proof (inv_objs m I a o Ho) as [H1 H2 H3 H4 [C1 [C2 [C3 C4]]]].
+  intros I Ho Hx. pose proof (inv_objs m I a o Ho) as [H1 H2 H3 H4 H5 H6].
   constructor; try reflexivity.
   - apply Inv_put_obj; [exact I|]. constructor; simpl; try assumption.
-    repeat split; try assumption. intros y Hy. inversion Hy; subst. exact Hx.
+    unfold obj_ch, cur_acct in Hx.
+    destruct H6 as [[Heq Hd] | [d [Hd [Hch Hn]]]].
+    + left. split; [exact Heq|]. cbn [o_dirty set_dirty]. intros d Hy. inversion Hy; subst d. rewrite Hx.
+      destruct (o_dirty o) as [d0|] eqn:E0; [apply Hd; reflexivity | reflexivity].
+    + right. exists x. cbn [o_dirty set_dirty o_dcode]. split; [reflexivity|]. split; [| exact Hn].
+      rewrite Hx, Hd. exact Hch.
   - intros a' k'. rewrite cur_st_put_obj. destruct (a' =? a) eqn:E; [| reflexivity].
     apply N.eqb_eq in E. subst. rewrite (cur_st_at m a o k' Ho). reflexivity.
   - intros a'. rewrite cur_oacct_put_obj. destruct (a' =? a); reflexivity.
+  - intros a'. rewrite cur_code_put_obj. destruct (a' =? a) eqn:E; [| reflexivity].
+    apply N.eqb_eq in E. subst. rewrite (cur_code_at m a o Ho). reflexivity.
   - repeat split.
 Qed.
 
-Lemma wrote_ac_frame_chg m m' a x c : wrote_ac m m' a x -> wrote_ac m (set_chg m' c) a x.
+(** writing contract code: the dirty record gets the hash of the new code *)
+Definition with_ch (x : option acct) (h : bytes) : acct :=
+  let d := copy_or_new x in mkAcct (ac_nonce d) (ac_bal d) (Some h).
+
+Lemma write_code_obj m a o c :
+  Inv m -> aget a (s_objs m) = Some o -> (c = None -> cached_code m a = None) ->
+  wrote_ac m (put_obj m a (obj_set_code e o c)) a (with_ch (cur_acct o) (e_kec e (nb c))) (nb c).
 Proof.
-  intros [W1 W2 W3 W4 W5 W6]. constructor; try assumption.
+  intros I Ho Hc. pose proof (inv_objs m I a o Ho) as [H1 H2 H3 H4 H5 H6].
+  constructor; try reflexivity.
+  - apply Inv_put_obj; [exact I|]. unfold obj_set_code. constructor; simpl; try assumption.
+    right. eexists. split; [reflexivity|]. split; [reflexivity | exact Hc].
+  - intros a' k'. rewrite cur_st_put_obj. destruct (a' =? a) eqn:E; [| reflexivity].
+    apply N.eqb_eq in E. subst. rewrite (cur_st_at m a o k' Ho). reflexivity.
+  - intros a'. rewrite cur_oacct_put_obj. destruct (a' =? a); reflexivity.
+  - intros a'. rewrite cur_code_put_obj. destruct (a' =? a); reflexivity.
+  - repeat split.
+Qed.
+
+Lemma wrote_ac_frame_chg m m' a x b c : wrote_ac m m' a x b -> wrote_ac m (set_chg m' c) a x b.
+Proof.
+  intros [W1 W2 W3 W4 W5 Wc W6]. constructor; try assumption.
   revert W1. apply Inv_frame; reflexivity.
 Qed.
 
-Lemma wrote_ac_after_views m0 m m' a x : same_views m0 m -> wrote_ac m m' a x -> wrote_ac m0 m' a x.
+Lemma wrote_ac_after_views m0 m m' a x b : same_views m0 m -> wrote_ac m m' a x b -> wrote_ac m0 m' a x b.
 Proof.
-  intros [A1 A2 A3 A4 A5 A6] [W1 W2 W3 W4 W5 W6]. apply Build_wrote_ac.
+  intros [A1 A2 A3 A4 A5 Ac A6] [W1 W2 W3 W4 W5 Wc W6]. apply Build_wrote_ac.
   - exact W1.
   - congruence.
   - congruence.
   - intros a' k'. rewrite W4. apply A4.
   - intros a'. rewrite W5, A5. reflexivity.
+  - intros a'. rewrite Wc, Ac. reflexivity.
   - decompose [and] A6. decompose [and] W6. repeat split; congruence.
 Qed.
+
 
 Definition with_bal (x : option acct) (z : Z) : acct :=
   let d := copy_or_new x in mkAcct (ac_nonce d) z (ac_ch d).
@@ -318,7 +371,7 @@ Definition with_nonce (x : option acct) (n : N) : acct :=
 
 Lemma do_setbal_spec m a z : Inv m ->
   let m' := do_setbal cfg_fixed m a z in
-  wrote_ac m m' a (with_bal (cur_oacct m a) z) /\
+  wrote_ac m m' a (with_bal (cur_oacct m a) z) (cur_code m a) /\
   exists m1 o, got_ok m a m1 o /\ s_chg m' = ChBal a (snd (fst (acct_view (cur_oacct m a)))) :: s_chg m1 /\
                aget a (s_objs m') <> None.
 Proof.
@@ -329,11 +382,11 @@ Proof.
   { rewrite <- (go_cur_ac _ _ _ _ G a). apply cur_oacct_at. apply G. }
   split.
   - rewrite Hc.
-    change (wrote_ac m (set_chg (put_obj m1 a (set_dirty o (Some (with_bal (cur_acct o) z)))) (ChBal a (obj_bal o) :: s_chg m1)) a (with_bal (cur_acct o) z)).
+    change (wrote_ac m (set_chg (put_obj m1 a (set_dirty o (Some (with_bal (cur_acct o) z)))) (ChBal a (obj_bal o) :: s_chg m1)) a (with_bal (cur_acct o) z) (cur_code m a)).
     apply wrote_ac_frame_chg. apply (wrote_ac_after_views m m1); [apply (got_ok_same_views m a m1 o G)|].
+    rewrite <- (go_cur_code _ _ _ _ G a).
     apply write_dirty_obj; [apply G | apply G |].
-    unfold with_bal, copy_or_new. simpl. destruct (cur_acct o) as [x|] eqn:E; [| reflexivity].
-    eapply cur_acct_ch_none; eassumption.
+    unfold with_bal, copy_or_new, obj_ch. simpl. destruct (cur_acct o) as [x|] eqn:E; reflexivity.
   - exists m1, o. split; [exact G|]. split.
     + simpl. rewrite Hc, obj_bal_view. reflexivity.
     + simpl. rewrite aget_aput, N.eqb_refl. discriminate.
@@ -341,7 +394,7 @@ Qed.
 
 Lemma do_setnonce_spec m a n : Inv m ->
   let m' := do_setnonce cfg_fixed m a n in
-  wrote_ac m m' a (with_nonce (cur_oacct m a) n) /\
+  wrote_ac m m' a (with_nonce (cur_oacct m a) n) (cur_code m a) /\
   exists m1 o, got_ok m a m1 o /\ s_chg m' = ChNonce a (fst (fst (acct_view (cur_oacct m a)))) :: s_chg m1 /\
                aget a (s_objs m') <> None.
 Proof.
@@ -352,14 +405,41 @@ Proof.
   { rewrite <- (go_cur_ac _ _ _ _ G a). apply cur_oacct_at. apply G. }
   split.
   - rewrite Hc.
-    change (wrote_ac m (set_chg (put_obj m1 a (set_dirty o (Some (with_nonce (cur_acct o) n)))) (ChNonce a (obj_nonce o) :: s_chg m1)) a (with_nonce (cur_acct o) n)).
+    change (wrote_ac m (set_chg (put_obj m1 a (set_dirty o (Some (with_nonce (cur_acct o) n)))) (ChNonce a (obj_nonce o) :: s_chg m1)) a (with_nonce (cur_acct o) n) (cur_code m a)).
     apply wrote_ac_frame_chg. apply (wrote_ac_after_views m m1); [apply (got_ok_same_views m a m1 o G)|].
+    rewrite <- (go_cur_code _ _ _ _ G a).
     apply write_dirty_obj; [apply G | apply G |].
-    unfold with_nonce, copy_or_new. simpl. destruct (cur_acct o) as [x|] eqn:E; [| reflexivity].
-    eapply cur_acct_ch_none; eassumption.
+    unfold with_nonce, copy_or_new, obj_ch. simpl. destruct (cur_acct o) as [x|] eqn:E; reflexivity.
   - exists m1, o. split; [exact G|]. split.
     + simpl. rewrite Hc, obj_nonce_view. reflexivity.
     + simpl. rewrite aget_aput, N.eqb_refl. discriminate.
+Qed.
+
+(** SetCode: one undo entry holding the previous code *)
+Lemma do_setcode_spec m a c : Inv m ->
+  let m' := do_setcode e cfg_fixed m a c in
+  exists prev m1 o,
+    got_ok m a m1 o /\ (c <> None -> wrote_ac m m' a (with_ch (cur_oacct m a) (e_kec e (nb c))) (nb c)) /\
+    s_chg m' = ChCode a prev :: s_chg m1 /\ nb prev = cur_code m a /\
+    (prev = None -> cached_code m a = None) /\ aget a (s_objs m') <> None.
+Proof.
+  intro I. unfold do_setcode, chg_append. cbn [d_orphan_changer cfg_fixed andb].
+  pose proof (get_obj_ok m a I) as G. destruct (get_obj m a) as [m1 o]. simpl in G.
+  pose proof (inv_objs m1 (go_inv _ _ _ _ G) a o (go_obj _ _ _ _ G)) as Ok.
+  destruct (obj_code_spec m1 a o Ok) as [Hoc Hnone]. rewrite Hoc.
+  assert (Hc : cur_oacct m a = cur_acct o).
+  { rewrite <- (go_cur_ac _ _ _ _ G a). apply cur_oacct_at. apply G. }
+  assert (Hcm : forall a', cached_code m1 a' = cached_code m a').
+  { apply cached_code_frame; apply G. }
+  exists (o_dcode o), m1, o. split; [exact G|]. split; [| split; [reflexivity | split; [| split]]].
+  - intro Hne. rewrite Hc.
+    change (wrote_ac m (set_chg (put_obj m1 a (obj_set_code e o c)) (ChCode a (o_dcode o) :: s_chg m1)) a
+                     (with_ch (cur_acct o) (e_kec e (nb c))) (nb c)).
+    apply wrote_ac_frame_chg. apply (wrote_ac_after_views m m1); [apply (got_ok_same_views m a m1 o G)|].
+    apply write_code_obj; [apply G | apply G | intro H; contradiction].
+  - rewrite <- (go_cur_code _ _ _ _ G a). symmetry. apply cur_code_at. apply G.
+  - intro H. rewrite <- Hcm. apply Hnone, H.
+  - simpl. rewrite aget_aput, N.eqb_refl. discriminate.
 Qed.
 
 (** * account objects only ever gain origin entries (until a Clear) *)
@@ -494,3 +574,16 @@ Proof.
                               [eapply got_obj_at; exact G | intros k H; exact H]].
   reflexivity.
 Qed.
+
+Lemma do_setcode_mono m a c : objs_mono m (do_setcode e cfg_fixed m a c).
+Proof.
+  unfold do_setcode, chg_append. cbn [d_orphan_changer cfg_fixed andb].
+  pose proof (get_obj_got m a) as G. destruct (get_obj m a) as [m1 o]. simpl in G.
+  pose proof (obj_code_ost m1 a o) as S. destruct (obj_code m1 a o) as [o1 prev]. simpl in S.
+  eapply objs_mono_trans; [eapply got_objs_mono; exact G|].
+  eapply objs_mono_frame; [| apply (objs_mono_put m1 a o (obj_set_code e o1 c));
+                              [eapply got_obj_at; exact G | exact S]].
+  reflexivity.
+Qed.
+
+End Block.
